@@ -8,6 +8,8 @@
 #include <sys/resource.h>
 #include <sys/stat.h>
 #include <unistd.h>
+#include <dirent.h>
+#include <ctime>
 #include <algorithm>
 #include <array>
 #include <cmath>
@@ -69,6 +71,27 @@ static void cleanup() {
     ::rmdir(p.c_str());
   }
   ::rmdir(g_dir.c_str());
+}
+
+// A sanitizer abort skips atexit: remove directories left behind by earlier processes (older than 30 minutes).
+static void sweep_stale(const std::string &base) {
+  DIR *d = ::opendir(base.c_str());
+  if (!d) return;
+  std::time_t now = std::time(nullptr);
+  while (struct dirent *e = ::readdir(d)) {
+    std::string n = e->d_name;
+    if (n.compare(0, 12, "verif_files_") != 0) continue;
+    std::string p = base + "/" + n;
+    struct stat st;
+    if (::stat(p.c_str(), &st) != 0 || !S_ISDIR(st.st_mode) || now - st.st_mtime < 1800) continue;
+    for (const char *f : {"/in.bin", "/out.bin", "/adir"}) {
+      std::string q = p + f;
+      ::unlink(q.c_str());
+      ::rmdir(q.c_str());
+    }
+    ::rmdir(p.c_str());
+  }
+  ::closedir(d);
 }
 
 static int hv(char c) {
@@ -403,7 +426,9 @@ static std::string exec(const std::vector<std::string> &w) {
 
 int main() {
   const char *base = std::getenv("TMPDIR");
-  std::string tmpl = std::string(base && *base ? base : "/tmp") + "/verif_files_XXXXXX";
+  std::string basedir = base && *base ? base : "/tmp";
+  sweep_stale(basedir);
+  std::string tmpl = basedir + "/verif_files_XXXXXX";
   std::vector<char> buf(tmpl.begin(), tmpl.end());
   buf.push_back(0);
   if (!mkdtemp(buf.data())) { std::perror("mkdtemp"); return 2; }
